@@ -9,7 +9,8 @@
 EXTENDS Detector, Json, IOUtils
 Trace == ndJsonDeserialize(IOEnv.IN_FILE)
 Laws == {"CW-level=r*P*Rload", "phase-rotation-invariant", "polarisation-unitary-invariant", "linear-in-r", "linear-in-Rload", "quadratic-in-amplitude",
-         "signal-part-deterministic", "ase-only-noise=PD(total)-PD(signal)+dark", "noise-free-selection-has-only-dark-offset"}
+         "signal-part-deterministic", "ase-only-noise=PD(total)-PD(signal)+dark", "noise-free-selection-has-only-dark-offset",
+         "result-independent-of-call-history"}
 Lower(sel) == sel
 CallClauses(e) ==
   LET want == Terms(e.sel) IN
